@@ -403,6 +403,9 @@ pub fn replay(case: &Value) -> Vec<Violation> {
     quiet_panics();
     tantivy::verif_hooks::set_handler(None);
     let prop = case["prop"].as_str().unwrap_or("C01");
+    if let Some(w) = case["conformance"].as_u64() {
+        return crate::c01conf::run_one(w as usize).violations.into_iter().map(|(r, w)| Violation::new(&r, w, case.clone())).collect();
+    }
     let Some(imgv) = case["image"].as_object() else { return vec![] };
     let img: BTreeMap<String, Vec<u8>> = imgv.iter().map(|(n, d)| (n.clone(), unhex(d.as_str().unwrap_or("")))).collect();
     let admissible: Vec<BTreeSet<u64>> = serde_json::from_value(case["admissible"].clone()).unwrap_or_default();
@@ -512,7 +515,9 @@ pub fn crash_family(ctx: &Ctx, prop: &str) -> FamilyOutcome {
 pub fn run(ctx: &Ctx) -> Report {
     quiet_panics();
     let mut rep = Report::new("fault_enumeration");
-    let FamilyOutcome { st, complete, histories: hinfo, dev, subsets } = crash_family(ctx, "C01");
+    let FamilyOutcome { mut st, complete, histories: hinfo, dev, subsets } = crash_family(ctx, "C01");
+    let conf = crate::c01conf::run_all(&mut st);
+    rep.set("conformance", conf);
     rep.set("exhaustive", complete);
     rep.set("histories", Value::Array(hinfo));
     rep.set("deviation_bound", dev as u64);
